@@ -143,6 +143,31 @@ func (c *Check) expiredBatchBinding(rule string) {
 	for _, b := range []*Binding{u.EB, u.NB} {
 		args := b.Call.CI.args
 		ok := len(args) >= 2 && args[1].IsAt("BlockHeight")
+		if !ok {
+			// the scan may be made elsewhere on the caller's paths (gathered first, handled afterwards): every scan of the
+			// queue's family that the caller reaches is keyed by the current height
+			fam := "0x09"
+			if b == u.NB {
+				fam = "0x10"
+			}
+			n, all := 0, true
+			for _, pa := range c.P.PathsOf(b.Caller) {
+				for _, ev := range pa.Events {
+					if ev.Kind != EvCall {
+						continue
+					}
+					for _, e := range c.P.effectsOfEvent(b.Caller, ev) {
+						if e.Kind == "store" && e.Op == "Iter" && e.Family == fam {
+							n++
+							if k := keyArgs(e); len(k) != 1 || !k[0].IsAt("BlockHeight") {
+								all = false
+							}
+						}
+					}
+				}
+			}
+			ok = n > 0 && all
+		}
 		c.req(ok, rule, unitConstruct(b.Caller, "queue-scan-height:"+b.Closure.Name), b.Call.Pos, "the queue is scanned at exactly ctx.BlockHeight(): "+fmtTerms(args))
 		// per-element binding: (id, GetRequestContext(id))
 		gc := c.getterByType("RequestContext")
@@ -196,6 +221,14 @@ func (c *Check) filterRulesMode(prefix string, totalOnly bool) {
 		for _, ev := range pa.Events {
 			if ev.Kind == EvCall && ev.CI.fn == f {
 				call = ev
+			}
+		}
+	}
+	if call == nil {
+		// the filter may be called by a function the handler calls (a planning step): its call on the handler's arguments
+		for _, dc := range c.deepCalls(u.NB.Closure, 2) {
+			if dc.Fn == f && call == nil {
+				call = &Event{Kind: EvCall, Pos: dc.Pos, CI: &callInfo{name: dc.Name, fn: dc.Fn, args: dc.Args, recv: dc.Recv}}
 			}
 		}
 	}
